@@ -152,7 +152,9 @@ Lookup(attrs, n) == IF \E a \in attrs : a.n = n THEN (CHOOSE a \in attrs : a.n =
 NmR == <<114>>  NmQ == <<113>>  NmA == <<97>>  NmB == <<98>>  NmC == <<99>>
 NmE1 == <<101, 49>>  NmE2 == <<101, 50>>  NmE3 == <<101, 51>>
 
-McEnts == << [n |-> NmE1, v |-> <<CI(32), CI(120), CI(32)>>],          \* " x "
+\* e1 has a literal CR LF (2.11 inside an entity value; reached directly and, through e3, nested),
+\* e2 a character reference to LF (4.5: literal in the replacement text, so a space in the value)
+McEnts == << [n |-> NmE1, v |-> <<CI(13), CI(10), CI(120), CI(32)>>],  \* "<CR><LF>x "
              [n |-> NmE2, v |-> <<CI(97), RI(10), CI(98)>>],           \* "a&#10;b"
              [n |-> NmE3, v |-> <<EI(NmE1), CI(9), CI(122)>>] >>       \* "&e1;<TAB>z"
 
